@@ -1,0 +1,16 @@
+//go:build verif
+// +build verif
+
+package reverse
+
+// VerifYieldHook is used by the verification harness in /verif (build tag "verif") to force
+// schedules: when it is non-nil it is called at the named yield points of this package with the
+// object concerned (the identifier of the call). With the tag off (verif_off.go) the yield
+// points compile to nothing.
+var VerifYieldHook func(point string, obj interface{})
+
+func verifYield(point string, obj interface{}) {
+	if h := VerifYieldHook; h != nil {
+		h(point, obj)
+	}
+}
